@@ -6,7 +6,11 @@ import GoZero.C16.ProofsSet
 import GoZero.C16.ProofsRW
 import GoZero.C16.ProofsCache2
 import GoZero.C16.ProofsCache3
+import GoZero.C16.ProofsCache4
 import GoZero.C16.ProofsLru
+import GoZero.C16.ProofsConcObjs
+import GoZero.C16.ProofsConcTake
+import GoZero.C07.Props
 namespace GoZero.C16
 
 /-! ## Queue behaves as a FIFO -/
@@ -186,6 +190,50 @@ example : ((RW.new 3 10 false 5).run [(5, 1), (14, 2), (15, 3), (25, 4)]).reduce
 
 example : List.Pairwise (· ≤ ·) (5 :: [(5, 1), (14, 2), (15, 3), (25, 4)].map (·.1)) := by decide
 
+/-! ### RollingWindow when the clock goes backwards (outside the property; characterisation of the code)
+
+The theorems above assume a non-decreasing clock.  `timex.Now()` is `time.Since(initTime)` with
+`initTime = time.Now().AddDate(-1, -1, -1)`; `AddDate` builds its result with `time.Date`, which carries no monotonic
+reading, so `time.Since` falls back to the wall clock: `timex.Now()` follows the wall clock and *can* go backwards
+when the system time is stepped back (observed by the glue test `timex-inittime-has-no-monotonic-reading`).  What the
+window then does (`RW.spanB` …, tied to the source by `tie_rwSpanBackwards` / `tie_rwUpdateTailBackwards`, compared
+with the real code by the correspondence harness): -/
+
+/-- with a clock that has not gone back, the backwards-aware model is the model -/
+theorem rw_backwards_model_agrees (rw : RW) (now v : Nat) (h : rw.lastTime ≤ now) :
+    rw.addB now v = rw.add now v ∧ rw.reduceB now = rw.reduce now := by
+  have hs : rw.spanB now = rw.span now := by simp [RW.spanB, Nat.not_lt.2 h]
+  have hu : rw.updateOffsetB now = rw.updateOffset now := by simp [RW.updateOffsetB, RW.updateOffset, hs, Nat.not_lt.2 h]
+  exact ⟨by simp [RW.addB, RW.add, hu], by simp [RW.reduceB, RW.reduce, RW.diffB, RW.diff, hs]⟩
+
+/-- **less than one interval back**: nothing expires, `Add` adds to the newest bucket, `Reduce` sees what it would see
+at `lastTime`; **one interval or more back**: `Reduce` visits nothing — the window reads as empty although its values
+were added during the last `size` intervals — and the next `Add` runs the reset loop over all `size` buckets. -/
+theorem rw_backwards_characterised (rw : RW) (now : Nat) (h : now < rw.lastTime) :
+    (rw.lastTime - now < rw.interval → rw.spanB now = 0 ∧ rw.updateOffsetB now = rw ∧ rw.reduceB now = rw.reduce rw.lastTime)
+    ∧ (rw.interval ≤ rw.lastTime - now → rw.spanB now = rw.size ∧ rw.reduceB now = []
+        ∧ (0 < rw.size → (rw.updateOffsetB now).buckets = RW.resetLoop rw.size rw.offset rw.size rw.buckets
+            ∧ now ≤ (rw.updateOffsetB now).lastTime)) := by
+  constructor
+  · intro hlt
+    have hs : rw.spanB now = 0 := by simp [RW.spanB, h, hlt]
+    have hs0 : rw.span rw.lastTime = 0 := by
+      unfold RW.span; simp only [Nat.sub_self, Nat.zero_div]; split <;> omega
+    refine ⟨hs, by simp [RW.updateOffsetB, hs], ?_⟩
+    simp [RW.reduceB, RW.reduce, RW.diffB, RW.diff, hs, hs0]
+  · intro hge
+    have hs : rw.spanB now = rw.size := by simp [RW.spanB, h, Nat.not_lt.2 hge]
+    refine ⟨hs, by simp [RW.reduceB, RW.diffB, hs]; intro h0 _; omega, fun hpos => ?_⟩
+    have hne : ¬ rw.size = 0 := by omega
+    simp [RW.updateOffsetB, hs, hne, h]
+
+/-- size 3, interval 10: values in three buckets; the clock steps back 25: Reduce sees nothing; an Add then wipes all -/
+example : ((RW.new 3 10 false 0).run [(5, 1), (15, 2), (25, 3)]).reduceB 0 = []
+    ∧ ((RW.new 3 10 false 0).run [(5, 1), (15, 2), (25, 3)]).reduceB 25 = [[1], [2], [3]]
+    ∧ ((RW.new 3 10 false 0).run [(5, 1), (15, 2), (25, 3)]).reduceB 12 = [[1], [2], [3]]
+    ∧ (((RW.new 3 10 false 0).run [(5, 1), (15, 2), (25, 3)]).addB 0 9).buckets = [[], [], [9]]
+    ∧ (((RW.new 3 10 false 0).run [(5, 1), (15, 2), (25, 3)]).addB 0 9).lastTime = 0 := by decide
+
 /-! ## Cache -/
 
 theorem cache_new_inv {T : Type} (limit : Nat) (x : T) : ({ limit := limit, data := [], lru := [], timers := x } : CacheG T).Inv :=
@@ -341,6 +389,38 @@ example : (CacheG.run C12.step (Cache.new 2 300) [.set 1 10 3, .set 2 20 3, .get
     = [([], [], none), ([], [], none), ([], [], some 10), ([2], [], none), ([], [], none), ([], [], some 10),
        ([], [], none), ([], [], none), ([], [1], none), ([], [], none), ([], [], some 30)] := by decide
 
+/-! ### Non-positive expiry (`NewCache(0)`, `SetWithExpire(k, v, 0)`, a 1 ns expiry jittered down to 0)
+
+`SetWithExpire` computes `expiry := AroundDuration(expire)` and calls `SetTimer(key, value, expiry)`, which rejects a
+delay ≤ 0 with `ErrArgument`; the error is dropped.  The property text ("returns the latest value set for a key unless
+it was deleted, has expired, or was evicted") has no clause that an entry must eventually expire, so this is modelled
+as the code behaves (`CacheG.setNoTimer`) and not counted as a violation: -/
+
+/-- **`Set` with a non-positive expiry**: the value is stored and returned by the next `Get`, the size bound and the
+recency invariant hold, LRU eviction works as usual — and the timers are left alone (apart from the evicted key's):
+a pending timer of the key keeps running, so the new value expires on the *old* schedule; a new key gets no timer. -/
+theorem set_nonpositive_expiry {T : Type} (ts : TStep T) (c : CacheG T) (h : c.Inv) (k v : Nat) :
+    (CacheG.setNoTimer ts c k v).1.Inv ∧ (CacheG.setNoTimer ts c k v).1.limit = c.limit
+    ∧ (CacheG.get ts (CacheG.setNoTimer ts c k v).1 k).2.result = some v
+    ∧ ((CacheG.setNoTimer ts c k v).2.evicted = [] ∧ (CacheG.setNoTimer ts c k v).1.timers = c.timers
+       ∨ ∃ old, (CacheG.setNoTimer ts c k v).2.evicted = [old] ∧ old ≠ k ∧ c.lru.getLast? = some old
+           ∧ (CacheG.setNoTimer ts c k v).1.timers = (ts c.timers (.remove old)).1) :=
+  setNoTimer_spec ts c h k v
+
+/-- **an entry without a timer never expires**: whatever the number of ticks, it is still there (timer table) -/
+theorem entry_without_timer_never_expires (c : Spec.ACache) (hn : C12.Spec.KeysNodup c.timers) (k : Nat)
+    (hk : k ∉ C12.Spec.keys c.timers) (n : Nat) :
+    alookup (ticksN c n).data k = alookup c.data k :=
+  no_timer_never_expires n c hn k hk
+
+/-- key 1 set with expiry 0 in an empty cache: no timer, still there after 40 ticks; key 2 set with 2 ticks and then
+re-set with expiry 0: the old timer keeps running and removes the new value at the second tick -/
+example : (CacheG.setNoTimer C12.Spec.step (Spec.ACache.new 0) 1 10).1.timers = []
+    ∧ alookup (ticksN (CacheG.setNoTimer C12.Spec.step (Spec.ACache.new 0) 1 10).1 40).data 1 = some 10
+    ∧ alookup (ticksN (CacheG.setNoTimer C12.Spec.step (CacheG.set C12.Spec.step (Spec.ACache.new 0) 2 20 2).1 2 21).1 1).data 2 = some 21
+    ∧ alookup (ticksN (CacheG.setNoTimer C12.Spec.step (CacheG.set C12.Spec.step (Spec.ACache.new 0) 2 20 2).1 2 21).1 2).data 2 = none := by
+  decide
+
 /-! ### The defect of the pinned code (kept as a machine-checked witness)
 
 `SetWithExpire` used `MoveTimer` for a key that was already cached; `MoveTimer` with a delay below the wheel
@@ -359,5 +439,260 @@ theorem pinned_set_subsecond_deletes :
 /-- the fixed code on the same history -/
 example : (CacheG.run C12.step (Cache.new 0 300) [.set 1 10 1, .set 1 11 0, .get 1]).map (fun o => (o.expired, o.result))
     = [([], none), ([], none), ([], some 11)] := by decide
+
+/-! ## Concurrency: the lock-protected structures under every schedule
+
+`Conc.step` (Conc.lean) is the interleaving semantics of "take the object's lock (`Lock`, or `RLock` for the
+read-only methods), run the body statement by statement, unlock, return" for an unbounded number of goroutines.
+The theorems hold for every reachable state, i.e. every schedule. -/
+
+/-- **The lock makes every call atomic (serializability + real-time order), for any lock-protected object whose
+read operations do not write.**  For every returned call `r`: the shared state it found is the committed state
+number `r.pos` (`hist`: the state after each write operation's unlock, in unlock order); run *alone* from that
+state its body ends with exactly the locals (results) `r.res` and the state `r.post`, which is the next committed
+state for a write operation and the same state for a read operation; and `r.pos` lies between the number of
+commits at its invocation and at its return (so the serial order respects the order of non-overlapping calls). -/
+theorem conc_calls_atomic {σ L Op : Type} (o : Conc.Obj σ L Op) (hp : Conc.ReadsPure o) {s0 : σ} {o0 : Op} {l0 : L}
+    {s : Conc.St σ L Op} (h : Conc.Reach o s0 o0 l0 s) (r : Conc.Rec σ L Op) (hr : r ∈ s.rets) :
+    Conc.Solo o r.op (s.hist r.pos) r.res (s.hist (r.pos + r.w o))
+    ∧ r.pre = s.hist r.pos ∧ r.post = s.hist (r.pos + r.w o)
+    ∧ r.invN ≤ r.pos ∧ r.pos + r.w o ≤ r.retN ∧ r.retN ≤ s.n := by
+  obtain ⟨a, b, c, d, e, f⟩ := (Conc.inv_reach o hp h).recs r hr
+  refine ⟨?_, a, b, d, e, f⟩
+  rw [← a, ← b]; exact c
+
+/-- every committed state is produced from the previous one by one recorded write operation run alone, the first
+one from the initial state; and the commit counter only grows (`Conc.n_mono`) -/
+theorem conc_commits_explained {σ L Op : Type} (o : Conc.Obj σ L Op) (hp : Conc.ReadsPure o) {s0 : σ} {o0 : Op} {l0 : L}
+    {s : Conc.St σ L Op} (h : Conc.Reach o s0 o0 l0 s) :
+    s.hist 0 = s0 ∧ ∀ i, i < s.n → ∃ r, r ∈ s.rets ∧ o.isRead r.op = false ∧
+      Conc.Solo o r.op (s.hist i) r.res (s.hist (i + 1)) := by
+  refine ⟨Conc.hist0 o h, fun i hi => ?_⟩
+  obtain ⟨r, hr, hw, hpos⟩ := (Conc.inv_reach o hp h).every i hi
+  have := (conc_calls_atomic o hp h r hr).1
+  have hw1 : r.w o = 1 := by simp [Conc.Rec.w, hw]
+  rw [hw1, hpos] at this
+  exact ⟨r, hr, hw, this⟩
+
+/-- **Mutual exclusion and reader isolation**: a writer inside its body is alone; while a reader is inside its body
+the shared state is the committed state it found when it got the lock — a `Range` or `Get` concurrent with a `Del`
+never sees a half-done migration. -/
+theorem conc_reader_isolation {σ L Op : Type} (o : Conc.Obj σ L Op) (hp : Conc.ReadsPure o) {s0 : σ} {o0 : Op} {l0 : L}
+    {s : Conc.St σ L Op} (h : Conc.Reach o s0 o0 l0 s) (t : Conc.Tid) (ht : s.pc t = .inside) :
+    (o.isRead (s.op t) = true → s.sh = s.snap t ∧ s.writer = none)
+    ∧ (o.isRead (s.op t) = false → ∀ u, s.pc u = .inside → u = t) := by
+  have hi := Conc.inv_reach o hp h
+  constructor
+  · intro hr
+    have hm := hi.insideR t ht hr
+    have hw : s.writer = none := by
+      cases hw : s.writer with
+      | none => rfl
+      | some u => have := (hi.lockW u hw).2.2; simp_all
+    exact ⟨by rw [(hi.inT t ht).2.1]; exact hi.commit hw, hw⟩
+  · intro hr u hu
+    have hw := hi.insideW t ht hr
+    have hrd := (hi.lockW t hw).2.2
+    cases hru : o.isRead (s.op u) with
+    | true => have := hi.insideR u hu hru; rw [hrd] at this; cases this
+    | false => have := hi.insideW u hu hru; rw [hw] at this; cases this; rfl
+
+/-! ### SafeMap under concurrency (RWMutex; `Del` with its migration spread over many steps, `Range` element by element) -/
+
+/-- the map operation a SafeMap write stands for -/
+def CMap.toMapOp : CMap.Op → Option MapOp
+  | .set k v => some (.set k v)
+  | .del k => some (.del k)
+  | _ => none
+
+/-- **every committed state of a concurrently used SafeMap is a state of the sequential model**: the result of
+running some sequence of Set / Del (the write operations in unlock order) from the empty map — so every sequential
+theorem (`safemap_refines_map`, `safemap_range_size`, `safemap_generations_disjoint`) applies to it. -/
+theorem safemap_conc_states_sequential (maxDel thr : Nat) {o0 : CMap.Op} {l0 : Loc} {s : Conc.St SafeMap Loc CMap.Op}
+    (h : Conc.Reach (CMap.obj maxDel thr) SafeMap.init o0 l0 s) (i : Nat) (hi : i ≤ s.n) :
+    ∃ ops : List MapOp, s.hist i = SafeMap.init.run maxDel thr ops := by
+  induction i with
+  | zero => exact ⟨[], by rw [(conc_commits_explained _ (CMap.readsPure maxDel thr) h).1]; rfl⟩
+  | succ i ih =>
+    obtain ⟨ops, hops⟩ := ih (by omega)
+    obtain ⟨r, _, hw, hsolo⟩ := (conc_commits_explained _ (CMap.readsPure maxDel thr) h).2 i (by omega)
+    have hseq := (CMap.solo_is_seq maxDel thr r.op _ _ _ hsolo).1
+    cases hop : r.op with
+    | get k => rw [hop] at hw; simp [CMap.obj, CMap.isRead] at hw
+    | size => rw [hop] at hw; simp [CMap.obj, CMap.isRead] at hw
+    | range => rw [hop] at hw; simp [CMap.obj, CMap.isRead] at hw
+    | set k v =>
+      refine ⟨ops ++ [.set k v], ?_⟩
+      rw [hseq, hop, hops]; simp [CMap.seqPost, SafeMap.run, SafeMap.step]
+    | del k =>
+      refine ⟨ops ++ [.del k], ?_⟩
+      rw [hseq, hop, hops]; simp [CMap.seqPost, SafeMap.run, SafeMap.step]
+
+/-- **SafeMap behaves as a map under every schedule.**  Every returned call of a concurrently used SafeMap — with
+`Del`'s generation migration and `Range`'s iteration interleaved statement by statement with the other goroutines —
+took effect atomically on a state `m` of the sequential model reached by the writes serialized before it:
+`Get k` returned `mapGetAfter ops k`, `Size` the number of keys, `Range` handed its callback every pair of the map's
+graph exactly once (no pair of a half-migrated generation twice, none missing), and a write left the sequential
+model's next state. -/
+theorem safemap_conc_behaves_as_map (maxDel thr : Nat) {o0 : CMap.Op} {l0 : Loc} {s : Conc.St SafeMap Loc CMap.Op}
+    (h : Conc.Reach (CMap.obj maxDel thr) SafeMap.init o0 l0 s) (r : Conc.Rec SafeMap Loc CMap.Op) (hr : r ∈ s.rets) :
+    ∃ ops : List MapOp, r.pre = SafeMap.init.run maxDel thr ops
+      ∧ r.post = CMap.seqPost maxDel thr r.pre r.op
+      ∧ (match r.op with
+         | .get k => r.res.res = Spec.mapGetAfter ops k
+         | .size => r.res.res = some r.pre.range.length
+         | .range => (akeys r.res.acc).Nodup ∧ ∀ k v, (k, v) ∈ r.res.acc ↔ Spec.mapGetAfter ops k = some v
+         | _ => True) := by
+  obtain ⟨hsolo, hpre, hpost, _, hret, hle⟩ := conc_calls_atomic _ (CMap.readsPure maxDel thr) h r hr
+  obtain ⟨ops, hops⟩ := safemap_conc_states_sequential maxDel thr h r.pos (by omega)
+  have hseq := CMap.solo_is_seq maxDel thr r.op _ _ _ hsolo
+  refine ⟨ops, by rw [hpre, hops], by rw [hpost, hpre]; exact hseq.1, ?_⟩
+  have hres := hseq.2
+  unfold CMap.resultOK at hres
+  cases hop : r.op with
+  | get k =>
+    rw [hop] at hres
+    simp only at hres ⊢
+    rw [hres, hops]; exact safemap_refines_map maxDel thr ops k
+  | size =>
+    rw [hop] at hres
+    simp only at hres ⊢
+    rw [hres, hpre]; simp [SafeMap.size, SafeMap.range]
+  | range =>
+    rw [hop] at hres
+    simp only at hres ⊢
+    rw [hres, hops]
+    have := safemap_range_size maxDel thr ops
+    exact ⟨this.1, this.2.1⟩
+  | set k v => trivial
+  | del k => trivial
+
+/-- Queue under concurrency (Mutex): every returned Put / Take / Empty took effect atomically, with the result and
+successor state of the sequential model `Queue.step` (which `queue_refines_fifo` relates to the FIFO) on the committed
+state it found. -/
+theorem queue_conc_calls_sequential {o0 : CQueue.Op} {l0 : Loc} {q0 : Queue} {s : Conc.St Queue Loc CQueue.Op}
+    (h : Conc.Reach CQueue.obj q0 o0 l0 s) (r : Conc.Rec Queue Loc CQueue.Op) (hr : r ∈ s.rets) :
+    (r.post, CQueue.visible r.op r.res) = CQueue.seqStep r.pre r.op
+    ∧ r.pre = s.hist r.pos ∧ r.post = s.hist (r.pos + 1) ∧ r.invN ≤ r.pos ∧ r.pos + 1 ≤ r.retN := by
+  obtain ⟨hsolo, hpre, hpost, hinv, hret, _⟩ := conc_calls_atomic _ CQueue.readsPure h r hr
+  have hw : r.w CQueue.obj = 1 := by simp [Conc.Rec.w, CQueue.obj]
+  rw [hw] at hpost hret hsolo
+  refine ⟨?_, hpre, hpost, hinv, hret⟩
+  rw [hpre, hpost]
+  exact CQueue.solo_is_seq r.op _ _ _ hsolo
+
+/-- Ring under concurrency (RWMutex): an `Add` leaves the sequential model's next state, a `Take` (copying element by
+element under the read lock) returns exactly `Ring.take` of the committed state it found — by
+`ring_keeps_last_n_in_order` the last n values added before it in the serial order. -/
+theorem ring_conc_calls_sequential {o0 : CRing.Op} {l0 : Loc} {r0 : Ring} {s : Conc.St Ring Loc CRing.Op}
+    (h : Conc.Reach CRing.obj r0 o0 l0 s) (r : Conc.Rec Ring Loc CRing.Op) (hr : r ∈ s.rets) :
+    r.pre = s.hist r.pos ∧ CRing.resultOK r.pre r.op r.res r.post := by
+  obtain ⟨hsolo, hpre, hpost, _, _, _⟩ := conc_calls_atomic _ CRing.readsPure h r hr
+  refine ⟨hpre, ?_⟩
+  have := CRing.solo_is_seq r.op _ _ _ hsolo
+  rw [← hpre, ← hpost] at this
+  exact this
+
+/-- non-vacuity: SafeMap with thresholds 1/2; goroutine 1 runs `Del 7` (which migrates) statement by statement while
+goroutine 2 waits for the read lock, then runs `Range`; goroutine 3's `Get` joins the reader.  The schedule is
+accepted by `Conc.step` and the three calls return. -/
+example :
+    (match Conc.run (CMap.obj 1 2) (Conc.init SafeMap.init (.get 0) { pc := 0 })
+      [(0, .set 7 70), (0, .size), (0, .size), (0, .size), (0, .size), (0, .size),          -- Set 7 70 by goroutine 0
+       (0, .set 8 80), (0, .size), (0, .size), (0, .size), (0, .size), (0, .size),          -- Set 8 80
+       (1, .del 7), (2, .range),                                                              -- 1 wants Lock, 2 wants RLock
+       (1, .size), (1, .size), (1, .size), (1, .size), (1, .size), (1, .size), (1, .size),  -- Del 7: delete, count, migrate …
+       (1, .size), (1, .size), (1, .size), (1, .size), (1, .size),                          -- … unlock (commit 3)
+       (2, .size), (3, .get 8), (3, .size), (2, .size), (2, .size), (3, .size), (3, .size), -- Range and Get share the read lock
+       (2, .size), (2, .size), (2, .size)] with
+     | some s => s.n == 3 && (s.rets.map fun r => (r.tid, r.pos, r.res.acc, r.res.res))
+         == [(2, 3, [(8, 80)], none), (3, 3, [], some 80), (1, 2, [], none), (0, 1, [], none), (0, 0, [], none)]
+     | none => false) = true := by
+  decide
+
+/-- … and while `Del` holds the write lock in the middle of its migration, the reader cannot move -/
+example :
+    (Conc.run (CMap.obj 1 2) (Conc.init SafeMap.init (.get 0) { pc := 0 })
+      [(0, .set 7 70), (0, .size), (0, .size), (0, .size), (0, .size), (0, .size),
+       (1, .del 7), (2, .range), (1, .size), (1, .size), (1, .size), (1, .size), (2, .size)]).isNone = true := by
+  decide
+
+/-! ### Cache.Take under concurrency: the loader runs at most once per miss
+
+`CT.step` (ConcTake.lean): any number of goroutines calling `Take`, `Set`, `Del` on any keys, entries expiring or
+being evicted at any moment, loaders returning values or errors after any delay.  The singleflight barrier is
+modelled by its specification, which C07 proves of core/syncx/singleflight.go for every schedule: -/
+
+/-- (C07, re-exported) at most one goroutine per key is between registering and deleting a flight of the real
+`SingleFlight` — the user function runs strictly inside — and every returned call got the value of the single
+execution of the flight it joined. -/
+theorem take_barrier_is_singleflight {s : C07.SF.St} (h : C07.SF.Reach s) :
+    (∀ t u, (s.pc t).inFlight = true → (s.pc u).inFlight = true → s.key t = s.key u → t = u)
+    ∧ (∀ r, r ∈ s.rets → s.ekey r.exec = r.key ∧ s.fnres r.exec = some r.val) :=
+  ⟨fun t u ht hu hk => C07.sf_exclusive h t u ht hu hk, fun r hr => ⟨(C07.sf_no_stale h r hr).2.1, (C07.sf_no_stale h r hr).1⟩⟩
+
+/-- **One loader at a time per key**: two goroutines inside the function handed to the barrier (from the re-check
+`doGet` to the end of the flight, the loader call in between) for the same key are the same goroutine. -/
+theorem take_loader_exclusive {s : CT.St} (h : CT.Reach s) (t u : CT.Tid)
+    (ht : (s.pc t).lead = true) (hu : (s.pc u).lead = true) (hk : s.key t = s.key u) : t = u := by
+  have hi := CT.inv_reach h
+  obtain ⟨a1, a2⟩ := hi.lead t ht
+  obtain ⟨b1, b2⟩ := hi.lead u hu
+  rw [hk, b1] at a1
+  have e := Option.some.inj a1
+  rw [← a2, ← b2, e]
+
+/-- **The loader is called at most once per miss** (any schedule, any number of concurrent `Take`s of the key): the
+number of loader calls for a key never exceeds one, plus the number of times a present entry of the key was removed
+(`Del`, expiry, eviction), plus the number of loader calls that failed.  In particular, while the entry is not
+removed and no load fails, all concurrent and later `Take`s of the key together call the loader once. -/
+theorem take_loads_once_per_miss {s : CT.St} (h : CT.Reach s) (k : CT.Key) :
+    s.loads k ≤ s.gone k + s.fails k + 1 :=
+  ((CT.inv_reach h).cnt k).1
+
+/-- **`Take` calls the loader only on a miss**: a `Take` calls the loader at most once, and only after it has looked
+the key up *inside the barrier* and missed; while the loader runs, that holds of the calling goroutine. -/
+theorem take_conc_loads_only_on_miss {s : CT.St} (h : CT.Reach s) :
+    (∀ r, r ∈ s.rets → r.calls ≤ 1 ∧ (r.calls = 1 → r.sawMiss = true))
+    ∧ (∀ t, s.pc t = .f2 → s.calls t = 1 ∧ s.sawMiss t = true) := by
+  have hi := CT.inv_reach h
+  refine ⟨hi.rets, fun t ht => ?_⟩
+  have := hi.calls t
+  unfold CT.callsOK at this
+  rw [ht] at this
+  exact this
+
+/-- non-vacuity: goroutines 1 and 2 `Take` key 5 concurrently (both miss at `t0`), 1 leads, 2 joins the flight;
+goroutine 3 arrives after the flight and hits.  One loader call, all three get 50. -/
+example :
+    (match CT.run CT.init [(1, .take 5), (2, .take 5), (1, .tau), (2, .tau), (1, .tau), (2, .tau), (1, .tau), (1, .tau),
+        (1, .ret (some 50)), (1, .tau), (1, .tau), (2, .tau), (1, .tau), (2, .tau), (3, .take 5), (3, .tau), (3, .tau)] with
+     | some s => s.loads 5 == 1 && (s.rets.map fun r => (r.tid, r.calls, r.res)) == [(3, 0, some 50), (2, 0, some 50), (1, 1, some 50)]
+     | none => false) = true := by
+  decide
+
+/-! ### Open finding: the asynchronous expiry callback deletes a value set after the timer fired
+
+`NewCache` hands `cache.Del(key)` to the wheel as expiry callback, and the wheel runs the callbacks of a tick in a new
+goroutine.  If the user — a single goroutine suffices — calls `Set(k, v2)` after the tick has taken `k`'s timer out of
+the wheel and before that goroutine runs, the callback deletes `v2` and removes `v2`'s fresh timer: `Get k` misses
+although the latest value set was neither deleted by the user, nor expired, nor evicted.  Reproduced on the real code
+with the callback goroutine delayed (fixes/C16-cache-expiry-callback-race.demo_test.go.txt); proposed fix
+fixes/C16-cache-expiry-callback-race.patch (the timer carries the sequence number of its Set; a stale callback is
+ignored).  `CacheG.tick` — the schedule in which the callbacks run at once — is the one all other theorems cover. -/
+
+/-- witness (model of the code that exists, tick split into `fire` and the callbacks): set 1 ↦ 10 for one tick; the
+tick fires key 1; set 1 ↦ 11 for 50 ticks; the delayed callback runs; get 1 misses and the new timer is gone -/
+theorem pinned_expiry_callback_deletes_later_set :
+    let c1 := (CacheG.set C12.Spec.step (Spec.ACache.new 0) 1 10 1).1
+    let f := CacheG.fire C12.Spec.step c1
+    let c2 := (CacheG.set C12.Spec.step f.1 1 11 50).1
+    let c3 := CacheG.expire C12.Spec.step c2 f.2
+    f.2 = [(1, 10)] ∧ (CacheG.get C12.Spec.step c2 1).2.result = some 11
+    ∧ (CacheG.get C12.Spec.step c3 1).2.result = none ∧ c3.timers = [] := by decide
+
+/-- `tick` = `fire` followed at once by the callbacks -/
+theorem tick_is_fire_then_callbacks {T : Type} (ts : TStep T) (c : CacheG T) :
+    (CacheG.tick ts c).1 = CacheG.expire ts (CacheG.fire ts c).1 (CacheG.fire ts c).2 := rfl
 
 end GoZero.C16
